@@ -213,60 +213,83 @@ def srvInit (c : Cfg) : SrvSt := ⟨if c.preauth then .auth else .notAuth, false
 /-- conn.go: poll — only in the authenticated/selected states -/
 def pollEv (s : SrvSt) : List SEv := if s.state == .auth then [.call .poll s.tls] else []
 
+abbrev SrvOut := SrvSt × List SEv × Act
+
+/-- conn.go: handleNoop + poll -/
+def execNoop (s : SrvSt) (tag : Bytes) (args : List Bytes) : SrvOut :=
+  if !args.isEmpty then (s, [.reply tag .bad none], .cont)
+  else (s, pollEv s ++ [.reply tag .ok none], .cont)
+
+/-- capability.go: handleCapability -/
+def execCapability (c : Cfg) (s : SrvSt) (tag : Bytes) (args : List Bytes) : SrvOut :=
+  if !args.isEmpty then (s, [.reply tag .bad none], .cont)
+  else (s, [.capsData (availableCaps c s)] ++ pollEv s ++ [.reply tag .ok none], .cont)
+
+/-- starttls.go:18-46 -/
+def execStartTLS (c : Cfg) (s : SrvSt) (tag : Bytes) (args : List Bytes) : SrvOut :=
+  if !args.isEmpty then (s, [.reply tag .bad none], .cont)
+  else if !c.tlsCfg then (s, [.reply tag .no none], .cont)
+  else if !canStartTLS c s then (s, [.reply tag .bad none], .cont)
+  else ({ s with tls := true }, [.reply tag .ok none], .switch)
+
+/-- login.go:13-23 -/
+def execLogin (c : Cfg) (s : SrvSt) (tag : Bytes) (args : List Bytes) : SrvOut :=
+  match args with
+  | [u, p] =>
+    if u.isEmpty || p.isEmpty then (s, [.reply tag .bad none], .cont)
+    else if s.state != .notAuth then (s, [.reply tag .bad none], .cont)
+    else if !canAuth c s then (s, [.reply tag .no none], .cont)
+    else
+      (⟨.auth, s.tls⟩, [.call (.login u p) s.tls, .reply tag .ok (some (availableCaps c ⟨.auth, s.tls⟩))], .cont)
+  | _ => (s, [.reply tag .bad none], .cont)
+
+/-- authenticate.go:15-47 (only the SASL-IR form `AUTHENTICATE PLAIN <initial response>`) -/
+def execAuthenticate (c : Cfg) (s : SrvSt) (tag : Bytes) (args : List Bytes) : SrvOut :=
+  match args with
+  | [mech, tok] =>
+    if mech.map upper != kPLAIN || tok.isEmpty then (s, [.unmodelled], .stop)
+    else if s.state != .notAuth then (s, [.reply tag .bad none], .cont)
+    else if !canAuth c s then (s, [.reply tag .no none], .cont)
+    else
+      (⟨.auth, s.tls⟩, [.call (.auth tok) s.tls, .reply tag .ok (some (availableCaps c ⟨.auth, s.tls⟩))], .cont)
+  | _ => (s, [.unmodelled], .stop)
+
+/-- conn.go: handleDelete + poll -/
+def execDelete (s : SrvSt) (tag : Bytes) (args : List Bytes) : SrvOut :=
+  match args with
+  | [m] =>
+    if m.isEmpty then (s, [.reply tag .bad none], .cont)
+    else if s.state != .auth then (s, [.reply tag .bad none], .cont)
+    else (s, [.call (.delete m) s.tls] ++ pollEv s ++ [.reply tag .ok none], .cont)
+  | _ => (s, [.reply tag .bad none], .cont)
+
+/-- conn.go: handleLogout -/
+def execLogout (s : SrvSt) (tag : Bytes) (args : List Bytes) : SrvOut :=
+  if !args.isEmpty then (s, [.reply tag .bad none], .cont)
+  else (⟨.logout, s.tls⟩, [.bye, .reply tag .ok none], .stop)
+
+/-- conn.go: readCommand default case: BAD, and before authentication the connection is dropped with BYE -/
+def execUnknown (s : SrvSt) (tag : Bytes) : SrvOut :=
+  if s.state == .notAuth then (⟨.logout, s.tls⟩, [.reply tag .bad none, .bye], .stop)
+  else (s, [.reply tag .bad none], .cont)
+
+/-- conn.go: readCommand dispatch on the upper-cased command name -/
+def execCmd (c : Cfg) (s : SrvSt) (tag nm : Bytes) (args : List Bytes) : SrvOut :=
+  if nm = kNOOP then execNoop s tag args
+  else if nm = kCAPABILITY then execCapability c s tag args
+  else if nm = kSTARTTLS then execStartTLS c s tag args
+  else if nm = kLOGIN then execLogin c s tag args
+  else if nm = kAUTHENTICATE then execAuthenticate c s tag args
+  else if nm = kDELETE then execDelete s tag args
+  else if nm = kLOGOUT then execLogout s tag args
+  else execUnknown s tag
+
 /-- one command line, following conn.go: readCommand and the handlers of the commands the tie uses -/
 def serverExec (c : Cfg) : Exec SrvSt SEv := fun s line =>
   match splitSp (stripEOL line) with
   | tag :: name :: args =>
-    if tag.isEmpty || name.isEmpty then (s, [.unmodelled], .stop) else
-    let nm := name.map upper
-    if nm = kNOOP then
-      if !args.isEmpty then (s, [.reply tag .bad none], .cont)
-      else (s, pollEv s ++ [.reply tag .ok none], .cont)
-    else if nm = kCAPABILITY then
-      if !args.isEmpty then (s, [.reply tag .bad none], .cont)
-      else (s, [.capsData (availableCaps c s)] ++ pollEv s ++ [.reply tag .ok none], .cont)
-    else if nm = kSTARTTLS then
-      -- starttls.go:18-46
-      if !args.isEmpty then (s, [.reply tag .bad none], .cont)
-      else if !c.tlsCfg then (s, [.reply tag .no none], .cont)
-      else if !canStartTLS c s then (s, [.reply tag .bad none], .cont)
-      else ({ s with tls := true }, [.reply tag .ok none], .switch)
-    else if nm = kLOGIN then
-      -- login.go:13-23
-      match args with
-      | [u, p] =>
-        if u.isEmpty || p.isEmpty then (s, [.reply tag .bad none], .cont)
-        else if s.state != .notAuth then (s, [.reply tag .bad none], .cont)
-        else if !canAuth c s then (s, [.reply tag .no none], .cont)
-        else
-          let s' := { s with state := .auth }
-          (s', [.call (.login u p) s.tls, .reply tag .ok (some (availableCaps c s'))], .cont)
-      | _ => (s, [.reply tag .bad none], .cont)
-    else if nm = kAUTHENTICATE then
-      -- authenticate.go:15-47 (only the SASL-IR form `AUTHENTICATE PLAIN <initial response>`)
-      match args with
-      | [mech, tok] =>
-        if mech.map upper != kPLAIN || tok.isEmpty then (s, [.unmodelled], .stop)
-        else if s.state != .notAuth then (s, [.reply tag .bad none], .cont)
-        else if !canAuth c s then (s, [.reply tag .no none], .cont)
-        else
-          let s' := { s with state := .auth }
-          (s', [.call (.auth tok) s.tls, .reply tag .ok (some (availableCaps c s'))], .cont)
-      | _ => (s, [.unmodelled], .stop)
-    else if nm = kDELETE then
-      match args with
-      | [m] =>
-        if m.isEmpty then (s, [.reply tag .bad none], .cont)
-        else if s.state != .auth then (s, [.reply tag .bad none], .cont)
-        else (s, [.call (.delete m) s.tls] ++ pollEv s ++ [.reply tag .ok none], .cont)
-      | _ => (s, [.reply tag .bad none], .cont)
-    else if nm = kLOGOUT then
-      if !args.isEmpty then (s, [.reply tag .bad none], .cont)
-      else ({ s with state := .logout }, [.bye, .reply tag .ok none], .stop)
-    else
-      -- unknown command: BAD, and before authentication the connection is dropped with BYE
-      if s.state == .notAuth then ({ s with state := .logout }, [.reply tag .bad none, .bye], .stop)
-      else (s, [.reply tag .bad none], .cont)
+    if tag.isEmpty || name.isEmpty then (s, [.unmodelled], .stop)
+    else execCmd c s tag (name.map upper) args
   | _ => (s, [.unmodelled], .stop)
 
 structure SrvRun where
